@@ -222,7 +222,8 @@ static const char *format_tostring(rf_wavheader_format_t format)
 char *rf_wavheader_tostring(rf_wavheader_t *wh)
 {
 	return strdup_printf("WAVE file: %d samples in %s %dch %dHz",
-			wh->data_chunk_size / (wh->block_align),
+			(wh->block_align ?
+				wh->data_chunk_size / (wh->block_align) : 0),
 			format_tostring(rf_wavheader_get_format(wh)),
 			wh->num_channels, wh->sample_rate);
 
